@@ -123,6 +123,10 @@ pub struct GatewayBinder {
     pub set_hash: BTreeMap<String, [u8; 32]>,
     pub probes: BTreeMap<String, Address>,
     pub apps: BTreeMap<String, Address>,
+    /// concrete bytes for payload names supplied by an enclosing binding (the token service's hub payloads)
+    pub payload_override: BTreeMap<String, Vec<u8>>,
+    /// concrete text for abstract source-address names supplied by an enclosing binding
+    pub src_override: BTreeMap<String, String>,
 }
 
 impl GatewayBinder {
@@ -147,6 +151,8 @@ impl GatewayBinder {
             set_hash: BTreeMap::new(),
             probes: BTreeMap::new(),
             apps: BTreeMap::new(),
+            payload_override: BTreeMap::new(),
+            src_override: BTreeMap::new(),
         };
         // contract principals (probe contracts) named by the instance
         if let Some(ps) = inst.get("Probes").and_then(|x| x.as_array()) {
@@ -247,6 +253,9 @@ impl GatewayBinder {
     }
 
     pub fn payload_bytes(&self, name: &str) -> Vec<u8> {
+        if let Some(b) = self.payload_override.get(name) {
+            return b.clone();
+        }
         if let Some(p) = self.inst.get("Payloads").and_then(|x| x.get(name)) {
             let len = p["len"].as_u64().unwrap() as usize;
             let pat = p["pat"].as_str().unwrap_or("asc");
@@ -269,7 +278,7 @@ impl GatewayBinder {
         Message {
             source_chain: self.cx.s(k["chain"].as_str().unwrap()),
             message_id: self.cx.s(k["id"].as_str().unwrap()),
-            source_address: self.cx.s(m["src"].as_str().unwrap()),
+            source_address: self.cx.s(self.src_override.get(m["src"].as_str().unwrap()).map(|x| x.as_str()).unwrap_or(m["src"].as_str().unwrap())),
             contract_address: dest,
             payload_hash: self.cx.b32(&keccak(&self.payload_bytes(m["ph"].as_str().unwrap()))),
         }
